@@ -1000,7 +1000,7 @@ C19_DEPS_THEOREMS = [
 
 class Check(PropertyCheck):
     prop = "C11"
-    module = "LLBuild.Props.C11"
+    module = "LLBuild.Props.C11All"
     theorems = [
         "LLBuild.MakeDeps.C11_roundtrip_word", "LLBuild.MakeDeps.C11_roundtrip_target",
         "LLBuild.MakeDeps.C11_roundtrip_file", "LLBuild.MakeDeps.C11_roundtrip_file_ignoring", "LLBuild.MakeDeps.C11_roundtrip_file_discovered",
@@ -1008,6 +1008,8 @@ class Check(PropertyCheck):
         "LLBuild.MakeDeps.C11_comment_skipped", "LLBuild.MakeDeps.C11_relative_resolved", "LLBuild.MakeDeps.C11_absolute_unchanged",
         "LLBuild.DepInfo.C11_depinfo_roundtrip", "LLBuild.ShellDeps.C11_malformed_fails", "LLBuild.ShellDeps.C11_wellformed_succeeds",
         "LLBuild.ShellDeps.C11_success_registers_every_file", "LLBuild.ShellDeps.C11_succeeded_only_if_processed",
+        # engine half: a recorded discovered dependency whose external value changed can never be declared up to date
+        "LLBuild.Engine.C11_discovered_change_not_up_to_date",
     ] + C19_DEPS_THEOREMS
     extractors = ["x_depsparsers"]
     impl_cfgs = ["plain", "asan"]
